@@ -80,7 +80,7 @@ class Model:
         self.pz = None
         self.qx = None
 
-    def observe(self):
+    def observe(self, full=True):
         out = []
         for n in NAMES:
             if n in self.globals:
@@ -89,7 +89,8 @@ class Model:
             else:
                 out.append("M" if n == "Math" else "U")
         out += [self.px, self.py, self.pz if "Math" not in self.globals else "clobbered", self.px, self.py, self.px, self.px]
-        out.append([self.qx for _ in builtin_objects()])
+        if full:
+            out.append([self.qx for _ in builtin_objects()])
         return out
 
 
@@ -110,11 +111,14 @@ def same(a, b):
     return a == b
 
 
-def observe(ctx):
-    with NoTracing():
-        names = builtin_objects()
-        extra = "[" + ", ".join("typeof %s === 'undefined' ? 'U' : %s.qx" % (n, n) for n in names) + "]"
-    return ctx._to_python(run_compiled(ctx, compile_js(OBSERVE))) + [ctx._to_python(run_compiled(ctx, compile_js(extra)))]
+def observe(ctx, full=True):
+    out = ctx._to_python(run_compiled(ctx, compile_js(OBSERVE)))
+    if full:
+        with NoTracing():
+            names = builtin_objects()
+            extra = "[" + ", ".join("typeof %s === 'undefined' ? 'U' : %s.qx" % (n, n) for n in names) + "]"
+        out = out + [ctx._to_python(run_compiled(ctx, compile_js(extra)))]
+    return out
 
 
 def apply_op(op, ctx, model, name, v, clock):
@@ -238,7 +242,7 @@ def make_history(n, first):
         try:
             ctxs = [new_context(time_limit=1.0, memory_limit=30000), new_context(time_limit=2.0, memory_limit=60000)]
             models = [Model(), Model()]
-            for (o, c, a, v) in steps:
+            for step_no, (o, c, a, v) in enumerate(steps):
                 op = pick(o, OPS)
                 ci = pick(c, [0, 1])
                 name = pick(a, NAMES)
@@ -248,11 +252,12 @@ def make_history(n, first):
                 if err is not None:
                     return lambda: "step %s on context %d: %s" % (op, ci, err)
                 cover("judged")
+                full = op == "all-builtins" or step_no == len(steps) - 1      # the 50-object probe: after the relevant step and at the end
                 for k in (0, 1):
                     if ctxs[k]._current_vm is not None:
                         return lambda: "after %s the context still points at an interpreter" % op
-                    got = observe(ctxs[k])
-                    want = models[k].observe()
+                    got = observe(ctxs[k], full)
+                    want = models[k].observe(full)
                     if not same(got, want):
                         return lambda: "after %s on context %d, context %d shows %r, the model %r" % (op, ci, k, got, want)
                 if op in ERROR_OPS:
